@@ -26,6 +26,45 @@ type Spec struct {
 	StrideExtra int `json:"stride_extra,omitempty"`
 }
 
+// band zeroes whole rows ("rowbands") or 8-byte column blocks ("colbands") of a prng-filled buffer, or everything
+// except a few pixels ("sparse"): sprites with transparent margins, text lines on a transparent background.
+func band(pix []uint8, stride int, s Spec) {
+	if stride <= 0 || (s.Fill != "rowbands" && s.Fill != "colbands" && s.Fill != "sparse") {
+		return
+	}
+	h := func(i int) uint64 { x := uint64(i)*0x9E3779B97F4A7C15 + s.Seed; x ^= x >> 29; return x * 0xBF58476D1CE4E5B9 >> 33 }
+	for y := 0; y*stride < len(pix); y++ {
+		row := pix[y*stride:]
+		if len(row) > stride {
+			row = row[:stride]
+		}
+		switch s.Fill {
+		case "rowbands":
+			if h(y/(1+int(s.Seed%3)))%3 != 0 { // bands of 1-3 rows, two thirds of them cleared
+				for i := range row {
+					row[i] = 0
+				}
+			}
+		case "colbands":
+			for b := 0; b*8 < len(row); b++ {
+				if h(b)%2 == 0 {
+					for i := b * 8; i < b*8+8 && i < len(row); i++ {
+						row[i] = 0
+					}
+				}
+			}
+		default:
+			for b := 0; b*8 < len(row); b++ {
+				if h(y*131+b)%9 != 0 {
+					for i := b * 8; i < b*8+8 && i < len(row); i++ {
+						row[i] = 0
+					}
+				}
+			}
+		}
+	}
+}
+
 func widen(pix *[]uint8, stride *int, rows, extra int) {
 	if extra <= 0 || rows <= 0 {
 		return
@@ -99,46 +138,55 @@ func Build(s Spec) Built {
 		m := image.NewRGBA64(pr)
 		widen(&m.Pix, &m.Stride, pr.Dy(), s.StrideExtra)
 		f.fill(m.Pix)
+		band(m.Pix, m.Stride, s)
 		parent, bufs = m, []*[]byte{&m.Pix}
 	case "NRGBA64":
 		m := image.NewNRGBA64(pr)
 		widen(&m.Pix, &m.Stride, pr.Dy(), s.StrideExtra)
 		f.fill(m.Pix)
+		band(m.Pix, m.Stride, s)
 		parent, bufs = m, []*[]byte{&m.Pix}
 	case "RGBA":
 		m := image.NewRGBA(pr)
 		widen(&m.Pix, &m.Stride, pr.Dy(), s.StrideExtra)
 		f.fill(m.Pix)
+		band(m.Pix, m.Stride, s)
 		parent, bufs = m, []*[]byte{&m.Pix}
 	case "NRGBA":
 		m := image.NewNRGBA(pr)
 		widen(&m.Pix, &m.Stride, pr.Dy(), s.StrideExtra)
 		f.fill(m.Pix)
+		band(m.Pix, m.Stride, s)
 		parent, bufs = m, []*[]byte{&m.Pix}
 	case "Gray":
 		m := image.NewGray(pr)
 		widen(&m.Pix, &m.Stride, pr.Dy(), s.StrideExtra)
 		f.fill(m.Pix)
+		band(m.Pix, m.Stride, s)
 		parent, bufs = m, []*[]byte{&m.Pix}
 	case "Gray16":
 		m := image.NewGray16(pr)
 		widen(&m.Pix, &m.Stride, pr.Dy(), s.StrideExtra)
 		f.fill(m.Pix)
+		band(m.Pix, m.Stride, s)
 		parent, bufs = m, []*[]byte{&m.Pix}
 	case "Alpha":
 		m := image.NewAlpha(pr)
 		widen(&m.Pix, &m.Stride, pr.Dy(), s.StrideExtra)
 		f.fill(m.Pix)
+		band(m.Pix, m.Stride, s)
 		parent, bufs = m, []*[]byte{&m.Pix}
 	case "Alpha16":
 		m := image.NewAlpha16(pr)
 		widen(&m.Pix, &m.Stride, pr.Dy(), s.StrideExtra)
 		f.fill(m.Pix)
+		band(m.Pix, m.Stride, s)
 		parent, bufs = m, []*[]byte{&m.Pix}
 	case "CMYK":
 		m := image.NewCMYK(pr)
 		widen(&m.Pix, &m.Stride, pr.Dy(), s.StrideExtra)
 		f.fill(m.Pix)
+		band(m.Pix, m.Stride, s)
 		parent, bufs = m, []*[]byte{&m.Pix}
 	case "Paletted":
 		n := s.PalN
@@ -168,6 +216,7 @@ func Build(s Spec) Built {
 		m := image.NewPaletted(pr, pal)
 		widen(&m.Pix, &m.Stride, pr.Dy(), s.StrideExtra)
 		f.fill(m.Pix)
+		band(m.Pix, m.Stride, s)
 		if n < 256 {
 			for i := range m.Pix {
 				m.Pix[i] %= uint8(n)
@@ -326,7 +375,7 @@ func Gen(t *rapid.T, label string, o GenOpts) Spec {
 	if !ycc && rapid.IntRange(0, 5).Draw(t, label+"widestride") == 0 {
 		s.StrideExtra = rapid.SampledFrom([]int{1, 2, 3, 4, 5, 8, 13, 64}).Draw(t, label+"strideextra")
 	}
-	fills := []string{"prng", "prng", "prng", "ff", "zero", "ramp"}
+	fills := []string{"prng", "prng", "prng", "ff", "zero", "ramp", "rowbands", "colbands", "sparse"}
 	if o.Orbit {
 		fills = append(fills, "orbit-h", "orbit-v")
 	}
